@@ -218,3 +218,39 @@ def check_C14(ctx):
     lifecycle(ctx, "C14", "fixtures,gen:%d" % n, 4 if q else 16)
     ctx.exhaustive = True
     ctx.notes["exhaustive_over"] = "the 2^5 switch vectors (per input); inputs are samples"
+
+
+def check_C13(ctx):
+    ctx.rule = ("names relation of Trace_Names.tla (forward: a name of a still-emitted entity is attached to the renumbered entity; converse: every output name has an origin) "
+                "evaluated by TLC on round trips with and without the GC pass, for fixtures, generated modules with full / partial name sections of every subsection kind "
+                "(module, function, local, label, type, table, memory, global, element, data) whose functions get reordered by the size sort. A case is one (module, pass).")
+    q = ctx.quick()
+    n = 500 if q else 20000
+    model_check_many(ctx, [("MC_Walrus", "MC_Walrus_Calls_emit", "design-renumbering-calls")])
+    trace = os.path.join(ctx.work, "names.ndjson")
+    wv(["trace-names", "inputs=fixtures,file:%s,gen:%d,gen:%d:big" % (DODRIO, n, n // 20), "seed=%d" % ctx.seed, "out=" + trace])
+    r, cases = judge_trace(ctx, "Trace_Names", trace, slim=lambda c: {"id": c["id"], "source": c["source"], "sigma": c["sigma"]})
+    named = [c for c in cases if c["in_names"]]
+    ctx.notes["cases_with_names"] = len(named)
+    ctx.notes["names_checked"] = sum(len(c["in_names"]) for c in cases)
+    ctx.notes["functions_with_unknown_local_map"] = sum(1 for c in cases for l in c["lm"] if not l["known"])
+    for c in named[:2] + named[-1:]:
+        ctx.sample({"id": c["id"], "in_names": c["in_names"][:6], "out_names": c["out_names"][:6], "sigma_func": c["sigma"]["func"]})
+    ctx.assumptions += ["the design-level run is the renumbering model Walrus.tla (names ride on sigma); the name relation itself is only checked on the implementation"]
+
+
+def check_C19(ctx):
+    ctx.rule = ("both index maps judged with the renumbering relation of ModuleGraph.tla: Iso(input binary, Module state seen inside on_parse, IndicesToIds) and "
+                "Iso(Module state before emit, emitted binary, IdsToIndices as seen inside CustomSection::data), plus types by signature and locals by type / parameter position; "
+                "with and without the GC pass (tombstoned ids). Design: ParseMapAgrees, EmitMapAgrees, IndexSpacesDense on Walrus.tla over the families. A case is one (module, pass).")
+    q = ctx.quick()
+    n = 400 if q else 15000
+    fams = ["calls", "globals"] if q else FAMILIES
+    model_check_many(ctx, [("MC_Walrus", "MC_Walrus_%s" % f.capitalize(), "design-maps-" + f) for f in (["globals", "memories"] if q else FAMILIES)])
+    trace = os.path.join(ctx.work, "maps.ndjson")
+    wv(["trace-maps", "inputs=fixtures,file:%s,%s,gen:%d,gen:%d:big" % (DODRIO, fam_inputs(ctx, fams), n, n // 20), "seed=%d" % ctx.seed, "out=" + trace])
+    r, cases = judge_trace(ctx, "Trace_Maps", trace, slim=lambda c: {"id": c["id"], "source": c["source"]})
+    ok = [c for c in cases if c.get("outcome") == "ok"]
+    for c in ok[:1] + ok[-2:]:
+        ctx.sample({"id": c["id"], "i2id_func": c["i2id"]["func"], "id2idx_func": c["id2idx"]["func"], "locals_of_first_local_func": next((l for l in c["locals"] if l["ids"]), None)})
+    ctx.assumptions += ["the Module state is read through the public API (iteration, get, public fields) and decoded binaries through wasmparser"]
